@@ -852,6 +852,16 @@ func (c *Conn) handleReturn(ctx context.Context, ret rpccp.Return, releaseRet ca
 		releaseRet()
 		return errorf("incoming return: question %d does not exist", qid)
 	}
+	if ret.ReleaseParamCaps() && len(q.paramRefs) > 0 {
+		// The callee has dropped the capabilities it received in the
+		// params: give up the export references the Call added.
+		rl, err := c.releaseExports(q.paramRefs)
+		q.paramRefs = nil
+		if err != nil {
+			c.report(annotate(err).errorf("incoming return: release param caps"))
+		}
+		defer rl.release() // every return path has dropped c.mu
+	}
 	canceled := q.flags&finished != 0
 	q.flags |= finished
 	if canceled {
